@@ -177,9 +177,17 @@ def add(a, b):
     # inf + -inf -> nan when both infinities are attained
     if (a.contains(INF) and b.contains(-INF)) or (a.contains(-INF) and b.contains(INF)):
         n = True
+    def _open(x, xo, y, yo):
+        # floating-point absorption: c + e with e -> 0 (open at 0) and c != 0 rounds to c itself, so the end point is
+        # attained; an open end survives an addition only when the operand that carries it is not at 0 (or both are at 0)
+        if xo and not yo and x == 0.0 and y != 0.0 and not math.isinf(y):
+            return False
+        if yo and not xo and y == 0.0 and x != 0.0 and not math.isinf(x):
+            return False
+        return xo or yo
     return Itv(a.lo + b.lo if not (math.isinf(a.lo) and math.isinf(b.lo) and a.lo != b.lo) else -INF,
                a.hi + b.hi if not (math.isinf(a.hi) and math.isinf(b.hi) and a.hi != b.hi) else INF,
-               a.lo_open or b.lo_open, a.hi_open or b.hi_open, n, a.isint and b.isint)
+               _open(a.lo, a.lo_open, b.lo, b.lo_open), _open(a.hi, a.hi_open, b.hi, b.hi_open), n, a.isint and b.isint)
 
 
 def sub(a, b):
@@ -316,6 +324,18 @@ def log(a):
     lo = -INF if p.lo == 0 else math.log(p.lo)
     hi = INF if p.hi == INF else math.log(p.hi)
     return Itv(lo, hi, True if p.lo == 0 else p.lo_open, p.hi_open, a.nan)
+
+
+def log1p(a):
+    """log(1 + x) of the part above -1, computed without forming 1 + x (no absorption: log1p(x) = 0 only at x = 0)"""
+    if a.empty:
+        return a
+    p = meet(a, Itv(-1.0, INF, True, False))
+    if p.empty:
+        return Itv(nan=a.nan)
+    lo = -INF if p.lo == -1.0 else math.log1p(p.lo)
+    hi = INF if p.hi == INF else math.log1p(p.hi)
+    return Itv(lo, hi, True if p.lo == -1.0 else p.lo_open, p.hi_open, a.nan)
 
 
 def sqrt(a):
